@@ -273,7 +273,7 @@ func TestValueRoundTrip(t *testing.T) {
 		Name: "value-roundtrip", N: 4000,
 		Rule: "osm.OSM values over every element kind (nodes, ways with annotated way nodes/updates/bounds, relations incl. zero members and nested member nodes, changesets with discussions, notes, users; a third with a top-level Bounds), unique tag keys, under three codec configurations (standard library; counting pass-through codec; an Encoder-without-HTML-escaping / Decoder-with-UseNumber codec); oracle = output parsed generically has the osmjson shape (elements array, every element typed, tags object, way nodes integer array, members array never null), Unmarshal(Marshal(v)) equals the model up to tag order and way-node/member-node annotations, top-level fields preserved, custom codec actually consulted, the bytes returned by a direct OSM.MarshalJSON call are unchanged after every element, tag list, way-node list, member list and a second document have been marshalled; non-trivial = >= 2 element kinds, or a relation without members, or a custom codec",
 		Gen: func(t *rapid.T) ValueCase {
-			o := osmdoc.GenOpt{UniqueTagKeys: true}
+			o := osmdoc.GenOpt{UniqueTagKeys: true, NoteFractions: true}
 			d := osmdoc.GenDoc(t, o, "nwrcNu")
 			if rapid.IntRange(0, 2).Draw(t, "topBounds") == 0 {
 				d.Items = append(d.Items, osmdoc.GenItem(t, o, "b"))
@@ -316,7 +316,7 @@ func TestCodecIndependence(t *testing.T) {
 		Name: "codec-independence", N: 1500,
 		Rule: "the same value is marshalled and unmarshalled under all three codec configurations; every configuration must satisfy the round-trip oracle (so decoded values agree), and the default and pass-through configurations must produce byte-identical text; non-trivial = every case",
 		Gen: func(t *rapid.T) ValueCase {
-			return ValueCase{Doc: osmdoc.GenDoc(t, osmdoc.GenOpt{UniqueTagKeys: true}, "nwrcNu")}
+			return ValueCase{Doc: osmdoc.GenDoc(t, osmdoc.GenOpt{UniqueTagKeys: true, NoteFractions: true}, "nwrcNu")}
 		},
 		Check: func(c ValueCase) error {
 			var texts [3]string
